@@ -192,7 +192,7 @@ CHECKS['C10'] = dict(
         "the truth slices to the delimiters, and (ScanInv) that CssScan.tla - the scanner's ScanState machine transcribed - reads the stylesheet back to the recorded events; the contract for balanced_inward (first node in closing order, chain of first children) "
         "is computed per position as well. The real scan / match / balanced_outward / balanced_inward are called at every position.",
    note="Semicolon-terminated declarations (as quantified); inward is not judged between a value's end and its semicolon's end; "
-        "a ';' inside parentheses is known finding F16 (generated in one small instance, matched by a flag the spec computes).",
+        "a ';' inside parentheses is known finding F16, braces inside parentheses ('calc(1px - #{$x})') known finding F50 (both generated in one small instance, matched by a flag).",
    technique="TLA+ machines = contract at every position (TLC) + spec->code replay of every stylesheet and position",
    ref="5/C10")
 
@@ -222,7 +222,7 @@ CHECKS['C17'] = dict(
         "inside its tag / item, is non-empty, ordered and de-duplicated, that declaration offsets are monotone inside the body and "
         "that next / previous walk the same tag sequence in opposite directions. The real get_open_tag, select_item_html, "
         "get_css_section(properties=True) and select_item_css are called at every position of every generated document.",
-   note="Not judged: get_open_tag inside a closing tag, select_item_css next strictly inside a declaration head; F16 as in C10. "
+   note="Not judged: get_open_tag inside a closing tag, select_item_css next strictly inside a declaration head; F16 / F50 as in C10. "
         "Bounds as C09 / C10.",
    technique="TLA+ contract on generated ground truth (TLC) + spec->code replay at every position",
    ref="5/C17")
